@@ -863,7 +863,37 @@ func checkD2(c *Ctx, pr *prioRoles) {
 					if st, ok := in.(*ssa.Store); ok {
 						if ia, ok := st.Addr.(*ssa.IndexAddr); ok && ia.X == ssa.Value(fn.Params[0]) {
 							if base, okr := rangeElem(p.Sym(st.Val)); okr && base.V == ssa.Value(fn.Params[0]) {
-								okFilter = true
+								// kept under "element != removed" ...
+								keptIfOther := false
+								for _, e := range InstrDomEdges(st) {
+									if !blockInLoop(e.From) {
+										continue
+									}
+									iff := e.From.Instrs[len(e.From.Instrs)-1].(*ssa.If)
+									if cm := p.NormCmp(iff.Cond, e.Succ == 0); cm != nil && cm.Op == token.NEQ && cm.LC == 0 && cm.RC == 0 && len(fn.Params) > 1 {
+										l, r := deepStrip(cm.L), deepStrip(cm.R)
+										isEl := func(x *Sym) bool { b2, ok2 := rangeElem(x); return ok2 && b2.V == ssa.Value(fn.Params[0]) }
+										if (isEl(l) && r.V == ssa.Value(fn.Params[1])) || (isEl(r) && l.V == ssa.Value(fn.Params[1])) {
+											keptIfOther = true
+										}
+									}
+								}
+								// ... at a write position that counts the kept elements from 0 by 1, advanced
+								// exactly on the path of the store ...
+								counts := false
+								if ph, isPhi := ia.Index.(*ssa.Phi); isPhi && isCountingPhiLoose(ph, st) {
+									counts = true
+									// ... and the result is the prefix of that length
+									for _, b2 := range fn.Blocks {
+										if ret, isRet := b2.Instrs[len(b2.Instrs)-1].(*ssa.Return); isRet && b2 != fn.Recover && len(ret.Results) == 1 {
+											sl, isSl := ret.Results[0].(*ssa.Slice)
+											if !isSl || sl.X != ssa.Value(fn.Params[0]) || sl.Low != nil || sl.High != ssa.Value(ph) {
+												counts = false
+											}
+										}
+									}
+								}
+								okFilter = keptIfOther && counts
 							}
 						}
 					}
@@ -1233,4 +1263,47 @@ func (p *Prog) isDescendingInterface(v ssa.Value) bool {
 		}
 	}
 	return false
+}
+
+// isCountingPhiLoose: ph starts at 0 and every other incoming value is ph itself (element skipped)
+// or ph+1 computed after the store st (element kept).
+func isCountingPhiLoose(ph *ssa.Phi, st *ssa.Store) bool {
+	haveZero, haveInc := false, false
+	for _, e := range ph.Edges {
+		switch x := e.(type) {
+		case *ssa.Const:
+			if k, ok := constDuration(x); !ok || k != 0 {
+				return false
+			}
+			haveZero = true
+		case *ssa.Phi:
+			if x != ph {
+				// a merge of "kept" and "skipped" inside the body
+				for _, e2 := range x.Edges {
+					if e2 == ssa.Value(ph) {
+						continue
+					}
+					bo, ok := e2.(*ssa.BinOp)
+					if !ok || bo.Op != token.ADD || bo.X != ssa.Value(ph) {
+						return false
+					}
+					if k, okk := constDuration(bo.Y); !okk || k != 1 || !(bo.Block() == st.Block() || st.Block().Dominates(bo.Block())) {
+						return false
+					}
+					haveInc = true
+				}
+			}
+		case *ssa.BinOp:
+			if x.Op != token.ADD || x.X != ssa.Value(ph) {
+				return false
+			}
+			if k, ok := constDuration(x.Y); !ok || k != 1 || !(x.Block() == st.Block() || st.Block().Dominates(x.Block())) {
+				return false
+			}
+			haveInc = true
+		default:
+			return false
+		}
+	}
+	return haveZero && haveInc
 }
